@@ -110,10 +110,15 @@ def run(case):
 def analyse(case, an, site_fracs, ops, M, labels, guard=None):
     radius = case['radius']
     positions = np.array(case['positions'], float)
+    tile = case.get('tile_to')
+    if tile:
+        positions = positions[np.arange(tile) % len(positions)]  # a long run: the generated positions visited cyclically, one atom per frame
     sc = case.get('supercell')
     if sc:
         # the trajectory lives in a supercell: unit-cell position p + integer cell offset, in supercell fractional coordinates
         offs = np.array(case['cell_offsets'], float)
+        if tile:
+            offs = offs[np.arange(tile) % len(offs)]
         scale = np.array(sc, float)
         sup = (positions + offs) / scale[None, :]
         T = case['frames']
@@ -239,6 +244,14 @@ def shape_cases(draw, tier):
     return case
 
 
+@st.composite
+def long_shape_cases(draw, tier):
+    c = draw(shape_cases(tier).filter(lambda c: c.get('via_trajectory') or c.get('supercell')))
+    c['tile_to'] = c['frames'] = draw(st.sampled_from([2499, 2500, 2501, 3000, 4097, 5001] + ([10001] if tier == 'thorough' else [])))
+    c['optimize'] = False
+    return c
+
+
 def run_from_structure(case):
     """analyser built by ShapeAnalyzer.from_structure from a structure whose origin is shifted (non-standard setting): the
     symmetry operations must be those of that very structure"""
@@ -306,6 +319,9 @@ SUBS = [
     Sub(name='shapes', kind='hyp', run=run, strategy=shape_cases,
         rule='33 space groups covering all crystal systems and centrings (quick) / all 230 by number (thorough); compatible lattice, optionally rotated; 1-2 sites incl. near-face positions; points planted at 0, 0.3, 0.9, 0.999, 1.001, 1.2 x radius from symmetry images + uniform points; positions given directly, as a trajectory, or as a 1-3^3 supercell trajectory; one case in four moves the sites first (shift_sites, Cartesian or fractional vectors, sites may leave [0,1)), one in four re-analyses after optimize_sites (site + centroid of its cloud); centroid / x / y / z of each shape',
         n={'quick': 100, 'thorough': 2500}, shards={'quick': 12, 'thorough': 16}),
+    Sub(name='long-trajectories', kind='hyp', run=run, strategy=long_shape_cases,
+        rule='the trajectory / supercell-trajectory forms of the shapes systems with the generated positions visited cyclically over 2499 - 5001 (10 001) frames (one atom per frame): same clauses on runs longer than any internal block size',
+        n={'quick': 2, 'thorough': 12}, shards={'quick': 4, 'thorough': 16}),
     Sub(name='from-structure', kind='hyp', run=run_from_structure, strategy=structure_cases,
         rule='analyser built with ShapeAnalyzer.from_structure from a full structure (22 groups, general position) whose origin is shifted by a generated vector; expected points from the structure\'s own symmetry operations (SpacegroupAnalyzer, as data) and the brute-force minimum-image oracle',
         n={'quick': 12, 'thorough': 300}, shards={'quick': 8, 'thorough': 16}),
